@@ -85,6 +85,13 @@ func (t *Table) SetCell(row, col int, cell Cell) error {
 	return nil
 }
 
+// markdownCellText prepares cell text for a pipe table: a line break would end
+// the row and an unescaped pipe would start a new cell.
+func markdownCellText(text string) string {
+	text = strings.ReplaceAll(text, "\n", " ")
+	return strings.ReplaceAll(text, "|", "\\|")
+}
+
 // ToMarkdown converts the table to markdown format
 func (t *Table) ToMarkdown() string {
 	if len(t.Rows) == 0 {
@@ -96,7 +103,7 @@ func (t *Table) ToMarkdown() string {
 	// Header row
 	for j, cell := range t.Rows[0] {
 		sb.WriteString("| ")
-		sb.WriteString(strings.ReplaceAll(cell.Text, "\n", " "))
+		sb.WriteString(markdownCellText(cell.Text))
 		sb.WriteString(" ")
 		if j == len(t.Rows[0])-1 {
 			sb.WriteString("|")
@@ -117,7 +124,7 @@ func (t *Table) ToMarkdown() string {
 	for i := 1; i < len(t.Rows); i++ {
 		for j, cell := range t.Rows[i] {
 			sb.WriteString("| ")
-			sb.WriteString(strings.ReplaceAll(cell.Text, "\n", " "))
+			sb.WriteString(markdownCellText(cell.Text))
 			sb.WriteString(" ")
 			if j == len(t.Rows[i])-1 {
 				sb.WriteString("|")
